@@ -797,12 +797,14 @@ func (d *decoder) processTextRegion(hdr *segmentHeader, data []byte) error {
 	// collect symbols from referred segments, skipping SDs whose
 	// exports are already included by a later SD in the ref list
 	// (an SD that refers to earlier SDs re-exports their symbols)
+	// a segment that is listed more than once contributes its symbols once
 	refSet := make(map[uint32]bool)
-	for _, refNum := range hdr.RefSegments {
-		refSet[refNum] = true
-	}
 	var symbols []*bitmap.Bitmap
 	for _, refNum := range hdr.RefSegments {
+		if refSet[refNum] {
+			continue
+		}
+		refSet[refNum] = true
 		ref, ok := d.segments[refNum]
 		if !ok || ref.symbols == nil {
 			continue
